@@ -32,6 +32,7 @@ PROBES = [
     "value-is-a-node-body",
     "value-is-a-default-subtree-body",
     "reopened-on-compacted-store",
+    "moved-to-earlier-root-by-assignment",
     "write-failed-on-lossy-store",
     "write-acknowledged-on-lossy-store-readable",
 ]
@@ -61,6 +62,7 @@ class SWorld:
         self.idx = -1
         self.obs = []
         self.degraded = False  # has the store lost node bodies? (see op_lose)
+        self.known = {}  # root -> contents, for every root this tree has had
         self.initial_root = self.smt.root_hash
         if self.initial_root != self.ref.initial_root:
             raise Violation("root-mismatch", f"root of a fresh tree is {self.initial_root.hex()}, reference {self.ref.initial_root.hex()}", event=0)
@@ -80,6 +82,8 @@ class SWorld:
             self.st.sched_rec(cmd["op"], out)
             self.st.state(self.smt.root_hash)
             self.roots.add(self.smt.root_hash)
+            if not self.degraded:
+                self.known[self.smt.root_hash] = dict(self.model)
             self.obs.append((i, cmd["op"], out, self.smt.root_hash))
         self.finish()
 
@@ -238,6 +242,22 @@ class SWorld:
         k = unhx(cmd["k"])
         return self.lookup(self.smt, Blob(k) if cmd.get("sub") else k, cmd.get("api", "get"))
 
+    def op_rewind(self, cmd):
+        """The client moves the live object to a root the tree had earlier (or that another
+        client wrote on the same store) by assigning root_hash, as from_db does; nothing is
+        ever deleted, so the object must then be that tree in every respect."""
+        if self.degraded or not self.known:
+            return "skip"
+        roots = sorted(self.known)
+        root = roots[cmd["root"] % len(roots)]
+        self.smt.root_hash = fresh(root)
+        self.model = dict(self.known[root])
+        for k in sorted(self.model)[:4]:
+            self.lookup(self.smt, k, "get")
+            self.check_key(k)
+        self.st.probe("moved-to-earlier-root-by-assignment")
+        return "ok"
+
     def op_lose(self, cmd):
         """The store loses one node body (disk corruption, an over-eager cleaner).  From
         here on reads and writes may fail with KeyError; they may never return wrong data,
@@ -275,6 +295,7 @@ class SWorld:
                 level = nxt
             seen |= level
             self.db = make_store(self.cfg, {x: raw[x] for x in seen})
+            self.known = {}  # earlier roots did not survive the compaction
             self.st.probe("reopened-on-compacted-store")
         try:
             other = SparseMerkleTree.from_db(self.db, fresh(self.smt.root_hash), key_size=self.ks, default=fresh(self.default))
@@ -415,6 +436,10 @@ def generate(rng):
     vals = make_values(rng, unhx(cfg["default"]))
     n = rng.choice(deep([6, 10, 16, 25, 40], [10, 20, 40, 80])) if cfg["ks"] <= 8 else rng.choice(deep([6, 10, 16], [10, 20, 30]))
     cmds = gen_history(rng, keys, vals, n)
+    if rng.random() < 0.3 and len(cmds) > 4:
+        # now and then the live object is moved to an earlier root by assignment
+        for _ in range(rng.choice([1, 2, 3])):
+            cmds.insert(rng.randrange(2, len(cmds) + 1), {"op": "rewind", "root": rng.randrange(1000)})
     if rng.random() < 0.15 and len(cmds) > 4:
         # the store loses node bodies during the last two thirds of the history
         for _ in range(rng.choice([1, 1, 2, 3])):
